@@ -170,19 +170,28 @@ theorem derived_keys_are_content_hashes (value owner label : List Nat) :
     (recordKey (chunkName value)).length = 32 ∧ (recordKey (registerName label owner)).length = 32 :=
   ⟨rfl, rfl, rfl, rfl, SafeNet.Sha3.hashBytes_length _, SafeNet.Sha3.hashBytes_length _⟩
 
-/-- If SHA3-256 does not collide on the inputs in question, a key determines what may be stored under it: two chunks
-under one key have equal bytes, two registers under one key have equal label and owner (labels are 32 bytes), two
-scratchpads / transaction sets under one key have the same owner. -/
-theorem key_determines_content
-    (hinj : ∀ x y, SafeNet.Sha3.hashBytes x = SafeNet.Sha3.hashBytes y → x = y) :
-    (∀ v v', recordKey (chunkName v) = recordKey (chunkName v') → v = v') ∧
-    (∀ o o', recordKey (scratchpadName o) = recordKey (scratchpadName o') → o = o') ∧
-    (∀ o o', recordKey (transactionName o) = recordKey (transactionName o') → o = o') ∧
+/-- A key determines what may be stored under it, unless the two contents in question are a SHA3-256 collision
+(the hypothesis of each clause is about that pair only — a global "SHA3-256 is injective" is false of any function into
+256 bits and would make the statement vacuous): two chunks under one key have equal bytes, two scratchpads /
+transaction sets under one key the same owner, two registers under one key equal label and owner (labels are 32
+bytes: the concatenation label ++ owner splits uniquely). -/
+theorem key_determines_content :
+    (∀ v v', (SafeNet.Sha3.hashBytes v = SafeNet.Sha3.hashBytes v' → v = v') →
+      recordKey (chunkName v) = recordKey (chunkName v') → v = v') ∧
+    (∀ o o', (SafeNet.Sha3.hashBytes o = SafeNet.Sha3.hashBytes o' → o = o') →
+      recordKey (scratchpadName o) = recordKey (scratchpadName o') → o = o') ∧
+    (∀ o o', (SafeNet.Sha3.hashBytes o = SafeNet.Sha3.hashBytes o' → o = o') →
+      recordKey (transactionName o) = recordKey (transactionName o') → o = o') ∧
     (∀ l o l' o', l.length = 32 → l'.length = 32 →
+      (SafeNet.Sha3.hashBytes (l ++ o) = SafeNet.Sha3.hashBytes (l' ++ o') → l ++ o = l' ++ o') →
       recordKey (registerName l o) = recordKey (registerName l' o') → l = l' ∧ o = o') := by
-  refine ⟨fun v v' h => hinj _ _ h, fun o o' h => hinj _ _ h, fun o o' h => hinj _ _ h, ?_⟩
-  intro l o l' o' hl hl' h
-  exact List.append_inj (hinj _ _ h) (by rw [hl, hl'])
+  refine ⟨fun v v' hp h => hp h, fun o o' hp h => hp h, fun o o' hp h => hp h, ?_⟩
+  intro l o l' o' hl hl' hp h
+  exact List.append_inj (hp h) (by rw [hl, hl'])
+
+/-- non-vacuity of the register clause: a concrete pair with equal keys (the same register) -/
+example : recordKey (registerName (List.replicate 32 7) [1, 2, 3]) = recordKey (registerName (List.replicate 32 7) [1, 2, 3]) ∧
+    (List.replicate 32 7).length = 32 := ⟨rfl, by simp⟩
 
 /-- Observed on the code (not a violation of the statement): a scratchpad and a transaction set of one owner are
 addressed by the same key; a register of that owner is not (given collision-freedom, a 32-byte label in front). -/
